@@ -178,7 +178,7 @@ func init() {
 			return func() string {
 				var lf, hf, lt, ht [curl.StateSize]uint
 				for i := range lf {
-					lf[i] = uint(i)*0x9E3779B97F4A7C15 + salt
+					lf[i] = uint(uint64(i)*0x9E3779B97F4A7C15) + salt
 					hf[i] = ^lf[i] | uint(i)<<7
 				}
 				if generic {
